@@ -12,6 +12,7 @@ import (
 	"runtime"
 	"runtime/debug"
 	"strings"
+	"sync"
 	"testing"
 	"time"
 
@@ -372,4 +373,117 @@ func TestVerif_C11B(t *testing.T) {
 	ev.StatesAdd(n)
 	ev.Bound("substitutions", "every position (first/last 320 bytes of artefacts longer than 700 bytes, first 48/last 24 of those longer than 2100) x all 255 other byte values; quick: artefacts up to 400 bytes")
 	ev.Sample("rdb-substitution", map[string]interface{}{"record": items[0].Name, "position": 12, "new_value": 0xff})
+}
+
+// TestVerif_C11Race: several loaders (one per source shard in the tool) parse, re-encode and
+// decode in one process at the same time. Every payload must be the one the same loader
+// produces when it runs alone, and its trailer must be the CRC-64 of its own bytes; a -race
+// build of this test reports storage shared between the loaders.
+func TestVerif_C11Race(t *testing.T) {
+	defer ev.Flush("C11")
+	log.SetLevel(log.LEVEL_NONE)
+	if ev.ReplayFile() != "" {
+		return
+	}
+	si, _ := ev.ShardInfo()
+	if si != 0 {
+		return
+	}
+	var keys []rdbgen.Item
+	for _, it := range rdbcat.Items(1) {
+		if it.Kind == "key" && len(it.Bytes) < 4096 {
+			keys = append(keys, it)
+		}
+	}
+	const loaders = 4
+	files := make([][]byte, loaders)
+	for g := 0; g < loaders; g++ {
+		var items []rdbgen.Item
+		items = append(items, rdbgen.SelectDB(uint32(g), rdbgen.LCanon))
+		for i := g; i < len(keys) && len(items) < 60; i += loaders {
+			items = append(items, keys[i])
+		}
+		files[g], _ = rdbgen.File(9, items)
+	}
+	parse := func(file []byte) ([][]byte, string) {
+		var out [][]byte
+		l := NewLoader(bytes.NewReader(file))
+		if err := l.Header(); err != nil {
+			return nil, err.Error()
+		}
+		for {
+			e, err := l.NextBinEntry()
+			if err != nil {
+				return nil, err.Error()
+			}
+			if e == nil {
+				break
+			}
+			p := e.Value
+			if len(p) < 10 || crcref.CRC64(0, p[:len(p)-8]) != binary.LittleEndian.Uint64(p[len(p)-8:]) {
+				return nil, fmt.Sprintf("payload of key %q does not carry the CRC-64 of its own bytes", e.Key)
+			}
+			out = append(out, append([]byte{}, p...))
+			// the conversion helpers use encoder and decoder
+			if oe, err := e.ObjEntry(); err == nil {
+				if be, err := oe.BinEntry(); err == nil {
+					if _, err := DecodeDump(be.Value); err != nil {
+						return nil, fmt.Sprintf("re-encoded payload of key %q does not decode: %v", e.Key, err)
+					}
+				}
+			}
+		}
+		if err := l.Footer(); err != nil {
+			return nil, err.Error()
+		}
+		return out, ""
+	}
+	alone := make([][][]byte, loaders)
+	for g := range files {
+		var why string
+		if alone[g], why = parse(files[g]); why != "" {
+			t.Fatalf("sequential parse of file %d fails: %s", g, why)
+		}
+	}
+	var wg sync.WaitGroup
+	var mu sync.Mutex
+	bad := ""
+	rounds := 30
+	for g := 0; g < loaders; g++ {
+		wg.Add(1)
+		go func(g int) {
+			defer wg.Done()
+			for r := 0; r < rounds; r++ {
+				got, why := parse(files[g])
+				if why == "" {
+					if len(got) != len(alone[g]) {
+						why = "a different number of records"
+					}
+					for i := 0; why == "" && i < len(got); i++ {
+						if !bytes.Equal(got[i], alone[g][i]) {
+							why = fmt.Sprintf("record %d: payload differs from the one produced when the loader runs alone", i)
+						}
+					}
+				}
+				if why != "" {
+					mu.Lock()
+					if bad == "" {
+						bad = fmt.Sprintf("loader %d of %d concurrent loaders, round %d: %s", g, loaders, r, why)
+					}
+					mu.Unlock()
+					return
+				}
+			}
+		}(g)
+	}
+	wg.Wait()
+	if bad != "" {
+		ev.Violate("C11|concurrent-loaders", bad, c11Case{Sub: "race"})
+	}
+	ev.Eval(int64(loaders * rounds))
+	ev.Trace(int64(loaders * rounds))
+	ev.Trans(int64(loaders * rounds))
+	ev.StatesAdd(int64(loaders * rounds))
+	ev.NontrivialAdd(int64(loaders * rounds))
+	ev.Count("concurrent_loader_runs", int64(loaders*rounds))
 }
